@@ -56,6 +56,14 @@ pub fn run(out: &mut Out, _seed: u64, _tier: &str) {
     for s in ["", "X", "D", "T", "Uue", "Xx", "h", "1", "0", "H1", "Og ", "\u{cd}"] {
         strings.push(s.to_string());
     }
+    // a symbol with a control character, a NUL, a combining mark or a look-alike letter before or after it is not a symbol
+    for s in &syms {
+        for c in ['\0', '\u{1}', '\t', '\n', '\r', '\u{7f}', '\u{a0}', '\u{301}', '\u{200b}', '0', '.', '-', '+'] {
+            if s.len() == 1 || (c == '\0' || c == '\n') { strings.push(format!("{}{}", s, c)); strings.push(format!("{}{}", c, s)); }
+        }
+        if s.len() == 1 { strings.push(format!("{}\0\0", s)); strings.push(format!("{}{}", s, s)); }
+    }
+    for s in ["\0", "\0\0", "\u{41d}", "\u{421}", "\u{39d}", "Ｈ", "ℍ", "Не"] { strings.push(s.to_string()); }
     strings.sort();
     strings.dedup();
     for s in &strings {
